@@ -394,6 +394,20 @@ func (x *Run) doNext(fr *Frame, st *State, ins *ssa.Next) []fork {
 		mt := it.Iter.MapTy
 		k = x.freshVal(st, "rk", mt.Key())
 		st.assume(x.mapHas(st, *it.Iter.Map, k.T))
+		// a range statement visits a key at most once ...
+		va := x.visitedArr(mt)
+		mref := it.Iter.Map.T
+		st.assume(not(sel(sel(x.arr(st, va), mref), k.T)))
+		x.setArr(st, va, store(x.arr(st, va), mref, store(sel(x.arr(st, va), mref), k.T, "true")))
+		// ... and ends only when every remaining key has been visited (Go
+		// semantics of range over a map, provided the body adds no entries)
+		if !x.loopInsertsInto(ins, mt) {
+			ks := x.d.sortOf(mt.Key())
+			a := x.mapArrs(mt)
+			q := "rvk"
+			s2.assume(fmt.Sprintf("(forall ((%s %s)) (! (=> (select (select %s %s) %s) (select (select %s %s) %s)) :pattern ((select (select %s %s) %s))))",
+				q, ks, x.arr(s2, a.dom), mref, q, x.arr(s2, va), mref, q, x.arr(s2, va), mref, q))
+		}
 		vv, _ := x.mapGet(st, *it.Iter.Map, k.T)
 		vv.MaybeNil = false
 		v = vv
@@ -409,6 +423,40 @@ func (x *Run) doNext(fr *Frame, st *State, ins *ssa.Next) []fork {
 	forks = append(forks, mk(st, "true", k, v))
 	forks = append(forks, mk(s2, "false", x.zeroOrDummy(tup.At(1).Type()), x.zeroOrDummy(tup.At(2).Type())))
 	return forks
+}
+
+// loopInsertsInto: the loop around the Next instruction stores into a map of
+// type mt (then "all keys visited" at loop exit is not guaranteed by Go).
+func (x *Run) loopInsertsInto(ins *ssa.Next, mt *types.Map) bool {
+	li := x.loops(ins.Parent())
+	for _, lp := range li.byHeader {
+		if !lp.blocks[ins.Block()] {
+			continue
+		}
+		for b := range lp.blocks {
+			for _, i2 := range b.Instrs {
+				if mu, ok := i2.(*ssa.MapUpdate); ok {
+					if m2 := mapTypeOf(mu.Map.Type()); m2 != nil && types.Identical(m2, mt) {
+						return true
+					}
+				}
+				if c, ok := i2.(ssa.CallInstruction); ok {
+					if _, isB := c.Common().Value.(*ssa.Builtin); !isB {
+						// calls may insert as well: look at the static mod-set
+						if fn := c.Common().StaticCallee(); fn != nil {
+							ms := x.modSet(fn)
+							if ms.Top || ms.Arrs[x.mapArrs(mt).dom] {
+								return true
+							}
+						} else {
+							return true
+						}
+					}
+				}
+			}
+		}
+	}
+	return false
 }
 
 func validType(t types.Type) bool {
@@ -554,6 +602,9 @@ func (x *Run) doTypeAssert(fr *Frame, st *State, ins *ssa.TypeAssert, outs *[]Ou
 func (x *Run) checkGuard(fr *Frame, st *State, a *Addr, write bool, site ssa.Instruction) {
 	if a.Guard == "" || a.Fresh || a.Kind != AField {
 		return
+	}
+	if subs := x.spec.guardSubs[fmt.Sprintf("%s#%d", typeKey(types.Unalias(a.Ty)), a.Field)]; subs != nil && len(a.Sel) > 0 && !subs[a.Sel[0]] {
+		return // an unguarded (immutable) part of a partly guarded nested struct
 	}
 	x.checkHeld(fr, st, a.Guard, write, site, x.guardName(a))
 }
@@ -754,8 +805,24 @@ func (x *Run) enterLoopHeader(fr *Frame, from, to *ssa.BasicBlock, st *State, lp
 			st.cells[c] = nv
 		}
 	}
+	// the ghost "visited" sets of map ranges running in this loop
+	for b := range lp.blocks {
+		for _, i2 := range b.Instrs {
+			if nx, ok := i2.(*ssa.Next); ok && !nx.IsString {
+				if rg, ok := nx.Iter.(*ssa.Range); ok {
+					if mt := mapTypeOf(rg.X.Type()); mt != nil {
+						ms.arrs[x.visitedArr(mt)] = true
+					}
+				}
+			}
+		}
+	}
 	if ms.top {
 		x.havocAllExcept(st, ms.preserves)
+		for _, name := range sortedKeys(ms.arrs) {
+			x.havocArr(st, name)
+		}
+		x.flushZeroAxioms(st)
 	} else {
 		for _, name := range sortedKeys(ms.arrs) {
 			x.havocArr(st, name)
@@ -932,6 +999,22 @@ func forall(vars []string, sorts []Sort, body string) string {
 	if len(vars) == 0 || body == "true" {
 		return body
 	}
+	// bind only the variables that occur: a quantifier over an unused variable
+	// hides a ground fact from the solver
+	{
+		var v2 []string
+		var s2 []Sort
+		for i, v := range vars {
+			if containsSym(body, v) {
+				v2 = append(v2, v)
+				s2 = append(s2, sorts[i])
+			}
+		}
+		vars, sorts = v2, s2
+		if len(vars) == 0 {
+			return body
+		}
+	}
 	var bs []string
 	for i, v := range vars {
 		bs = append(bs, fmt.Sprintf("(%s %s)", v, sorts[i]))
@@ -940,4 +1023,22 @@ func forall(vars []string, sorts []Sort, body string) string {
 		return fmt.Sprintf("(forall (%s) (! %s :pattern %s))", strings.Join(bs, " "), body, pat)
 	}
 	return fmt.Sprintf("(forall (%s) %s)", strings.Join(bs, " "), body)
+}
+
+// containsSym: symbol sym occurs in the s-expression text as a whole token.
+func containsSym(text, sym string) bool {
+	for i := 0; ; {
+		j := strings.Index(text[i:], sym)
+		if j < 0 {
+			return false
+		}
+		j += i
+		e := j + len(sym)
+		okL := j == 0 || text[j-1] == ' ' || text[j-1] == '('
+		okR := e == len(text) || text[e] == ' ' || text[e] == ')'
+		if okL && okR {
+			return true
+		}
+		i = j + 1
+	}
 }
